@@ -202,6 +202,11 @@ def c20(ctx, rep):
     # the SITE discharge of `delta - 1` at the length->offset conversions assumes items of steps_iter >= 1: decide that here too
     rep.rule('STEP-NONZERO', 'no steps_iter yields 0 (cross-reference of the assumption used to discharge closed_from_time_zero call sites)')
     rules_models.check_step_nonzero(rep, dbg)
+    # the conversion API and the operator impls of time.rs are the transfer functions every other rule relies on
+    rep.rule('REF', 'time.rs: every conversion, constant, saturating_sub and operator impl (incl. the derive_more generated Add/Sub/AddAssign/Sum) '
+                    'computes the reviewed term (checked raw arithmetic on the wrapped u64, +1/-1 for the closed-interval conversions)')
+    nref = rules_models.check_ref(rep, dbg, 'C20')
+    rep.floor('time.rs reference summaries', nref, 28)
     # positive / negative controls on the fixtures crate (same driver, same rules, empty vetted table)
     fd, fr = ctx.fixtures('dbg'), ctx.fixtures('rel')
     col = controls.Collector()
